@@ -33,6 +33,10 @@ class LocalSim(mosaik_api_v3.Simulator):
 
     def setup_done(self):
         self.ctx.record({"k": "SETUP", "s": self.sid})
+        plan = getattr(self.ctx.behaviour, "plan", None)
+        if plan and plan["sid"] == self.sid and plan["req"] == "setup_done" and plan["kind"] == "raise":
+            self.ctx.record({"k": "FAULT", "s": self.sid, "kind": "raise", "req": "setup_done"})
+            raise RuntimeError(f"injected failure in {self.sid}.setup_done")
 
     def _begin(self, kind, args):
         ctx = self.ctx
@@ -56,7 +60,7 @@ class LocalSim(mosaik_api_v3.Simulator):
     def step(self, time, inputs, max_advance):
         rep = self._begin("step", (time, inputs, max_advance))
         if rep.exc is not None:
-            self.ctx.record({"k": "XE", "s": self.sid, "req": "step", "exc": type(rep.exc).__name__})
+            self.ctx.record({"k": "FAULT", "s": self.sid, "kind": "raise", "req": "step"})
             raise rep.exc
         nk, n = _enc_next(rep.value)
         self.ctx.record({"k": "SE", "s": self.sid, "nk": nk, "n": n, "nodata": self.sid not in self.ctx.has_out})
@@ -65,7 +69,7 @@ class LocalSim(mosaik_api_v3.Simulator):
     def get_data(self, outputs):
         rep = self._begin("get_data", (outputs,))
         if rep.exc is not None:
-            self.ctx.record({"k": "XE", "s": self.sid, "req": "get_data", "exc": type(rep.exc).__name__})
+            self.ctx.record({"k": "FAULT", "s": self.sid, "kind": "raise", "req": "get_data"})
             raise rep.exc
         self.ctx.record(_de_event(self.sid, rep.value, self.ctx.steptime[self.sid]))
         return copy.deepcopy(rep.value)
